@@ -319,8 +319,8 @@ def _generator_case(case, config, tmp):
                     for key in ("particle_id", "vertex_x", "vertex_y", "vertex_z", "direction_x", "direction_y", "direction_z", "energy",
                                 "interaction_kind", "interaction_inelasticity", "interaction_em_frac", "interaction_had_frac",
                                 "survival_weight", "interaction_weight"):
-                        if not abs(float(g_[key]) - float(m[key])) <= 1e-12 * max(1.0, abs(float(m[key]))):
-                            bad = "event %d: %s replayed as %r, stored %r" % (k, key, g_[key], m[key])
+                        if g_.get(key) is None or not abs(float(g_[key]) - float(m[key])) <= 1e-12 * max(1.0, abs(float(m[key]))):
+                            bad = "event %d: %s replayed as %r, stored %r" % (k, key, g_.get(key), m[key])
                             break
                     if bad:
                         break
